@@ -112,7 +112,7 @@ def run(rep, tier):
                         'vectors (a randomized identity test: it can miss, it cannot raise a false alarm beyond rounding)',
                         'the analyzer bookkeeping (add_error_combinations, gauge removal) is tied by this oracle, not modelled in Coq']
     rng = rep.rng()
-    N = 1500 if quick else 30000
+    N = 12000 if quick else 60000
     pre = []
     pre_in = []
     for _ in range(N):
